@@ -162,6 +162,19 @@ func seededMutants(prop string) []mutant {
 	return out
 }
 
+// benignVariants: the behaviour-preserving refactorings kept under /verif/benign (written by
+// independent agents); every property's rules must stay silent on each of them.
+func benignVariants(prop string) []mutant {
+	var out []mutant
+	files, _ := filepath.Glob(filepath.Join(verifDir(), "benign", "*.diff"))
+	sort.Strings(files)
+	for _, f := range files {
+		name := strings.TrimSuffix(filepath.Base(f), ".diff")
+		out = append(out, mutant{Prop: prop, Name: "benign:" + name, Patch: f, Expect: "silent", Why: "behaviour-preserving refactoring (see benign/" + name + ".md)"})
+	}
+	return out
+}
+
 func runMutants(repo string, def *PropDef) mutantResult {
 	var ms []mutant
 	for _, m := range mutantTable {
@@ -170,6 +183,7 @@ func runMutants(repo string, def *PropDef) mutantResult {
 		}
 	}
 	ms = append(ms, seededMutants(def.ID)...)
+	ms = append(ms, benignVariants(def.ID)...)
 	known, _ := loadKnown(filepath.Join(verifDir(), "known_findings.txt"))
 	knownKeys := map[string]bool{}
 	for _, k := range known {
